@@ -88,8 +88,13 @@ def observe_calls(fns, V, x):
             # an integer-valued point handed over as an integer array.  The documented argument is a floating array and NumPy itself
             # refuses some integer operations (negative integer powers), so a refusal is accepted - but a NUMBER that comes back
             # must be the number
-            out["int:compiled(int64 array)"] = call(fns["compiled"][0], x.astype(np.int64))
-            out["int:iterative(int32 array)"] = call(fns["iterative"][0], x.astype(np.int32))
+            # (64-bit only, and only where the value is far from the integer range: fixed-width integers wrap around)
+            vi = call(fns["compiled"][0], x.astype(np.int64))
+            vj = call(fns["iterative"][0], x.astype(np.int64))
+            ref_ = out.get("evaluate")
+            if ref_ is not None and abs(ref_) < 1e9:
+                out["int:compiled(int64 array)"] = vi
+                out["int:iterative(int64 array)"] = vj
         return out
 
 
